@@ -58,7 +58,7 @@ func (c Case) expand() gen.History {
 }
 
 func genTextQuery(t *rapid.T, label string, g *gen.HistoryGen) oracle.TextQuery {
-	q := oracle.TextQuery{Operator: rapid.SampledFrom([]string{models.OperatorContainsAll, models.OperatorContainsAny}).Draw(t, label+"-op")}
+	q := oracle.TextQuery{Operator: rapid.SampledFrom([]string{models.OperatorContainsAll, models.OperatorContainsAny}).Draw(t, label+"-op"), Stray: rapid.IntRange(0, 3).Draw(t, label+"-stray") == 0}
 	switch rapid.IntRange(0, 5).Draw(t, label+"-vk") {
 	case 0:
 		q.Value = rapid.SampledFrom(gen.StopWords).Draw(t, label+"-stop") // analyses to nothing
